@@ -51,7 +51,7 @@ NV_WEAK_LSEARCHK_GET_CONTRACT;
 __CPROVER_requires(__CPROVER_is_fresh(self, sizeof(*self)) && __CPROVER_is_fresh(state, sizeof(*state)) && __CPROVER_is_fresh(descent, sizeof(*descent)) && NV_STATE_OK(state) && NV_COUNTER_OK) \
 __CPROVER_assigns(*state, nv_ver_counter, self->m_last_step_size, nv_ls_ghost) \
 __CPROVER_ensures(__CPROVER_return_value ==> (state->valid && state->ver != __CPROVER_old(state->ver))) \
-__CPROVER_ensures(NV_STATE_OK(state) && nv_ver_counter >= __CPROVER_old(nv_ver_counter) && nv_ver_counter - __CPROVER_old(nv_ver_counter) <= 40000) \
+__CPROVER_ensures(NV_STATE_OK(state) && nv_ver_counter >= __CPROVER_old(nv_ver_counter) && nv_ver_counter - __CPROVER_old(nv_ver_counter) <= NV_LS_MAX_EVALS) \
 __CPROVER_ensures(__CPROVER_return_value ==> nv_ver_counter > __CPROVER_old(nv_ver_counter)) \
 __CPROVER_ensures(state->m_status == __CPROVER_old(state->m_status))
 
@@ -86,7 +86,7 @@ __CPROVER_ensures(NV_RET.m_fcalls >= 0 && (uint64_t)NV_RET.m_fcalls <= nv_ver_co
 /* C02: unless failed, the returned point and value are finite */ \
 __CPROVER_ensures(NV_RET.m_status != NVE_solver_status_failed ==> NV_RET.valid) \
 /* C02: budget: evaluations exceed max_evals by at most one outer iteration's worth (one line search) */ \
-__CPROVER_ensures(nv_ver_counter < 2000000000 && 2 * nv_ver_counter < (uint64_t)nv_max_evals + 2 * 40000 + 2)
+__CPROVER_ensures(nv_ver_counter < 2000000000 && 2 * nv_ver_counter < (uint64_t)nv_max_evals + 2 * NV_LS_MAX_EVALS + 2)
 #if defined(NV_C01)
 #define NV_MINIMIZE_ENSURES NV_ENSURES_C01
 #elif defined(NV_C02)
@@ -101,8 +101,8 @@ __CPROVER_ensures(nv_ver_counter < 2000000000 && 2 * nv_ver_counter < (uint64_t)
 __CPROVER_assigns(state, descent, lsearch, nv_ver_counter, nv_ls_ghost) \
 __CPROVER_loop_invariant(NV_STATE_OK(&state) && state.m_status == NVE_solver_status_max_iters && state.valid) \
 __CPROVER_loop_invariant(state.m_fcalls >= 0 && (uint64_t)state.m_fcalls <= nv_ver_counter && state.m_gcalls >= 0 && (uint64_t)state.m_gcalls <= nv_ver_counter) \
-__CPROVER_loop_invariant(1 <= nv_ver_counter && nv_ver_counter < 2000000000 && 2 * nv_ver_counter < (uint64_t)nv_max_evals + 2 * 40000 + 2) \
-__CPROVER_decreases((uint64_t)nv_max_evals + 100000 - 2 * nv_ver_counter)
+__CPROVER_loop_invariant(1 <= nv_ver_counter && nv_ver_counter < 2000000000 && 2 * nv_ver_counter < (uint64_t)nv_max_evals + 2 * NV_LS_MAX_EVALS + 2) \
+__CPROVER_decreases((uint64_t)nv_max_evals + (2 * NV_LS_MAX_EVALS + 50000) - 2 * nv_ver_counter)
 
 enum { NVE_quasi_initialization_identity = 0, NVE_quasi_initialization_scaled = 1 };
 static int32_t nv_param_initialization(void) { return nv_nondet_int32_t(); }
@@ -113,11 +113,11 @@ static uint64_t nv_param_history(void) { return nv_nondet_uint64_t(); }
  * evaluations with status max_iters (so that `return cstate.valid() ? cstate : pstate` can only return a tested state) */
 #define NV_COUNTS_OK(s) ((s).m_fcalls >= 0 && (uint64_t)(s).m_fcalls <= nv_ver_counter && (s).m_gcalls >= 0 && (uint64_t)(s).m_gcalls <= nv_ver_counter)
 #define NV_GOOD(s) (NV_STATE_OK(&(s)) && (s).m_status == NVE_solver_status_max_iters && (s).valid && NV_COUNTS_OK(s))
-#define NV_BUDGET (1 <= nv_ver_counter && nv_ver_counter < 2000000000 && 2 * nv_ver_counter < (uint64_t)nv_max_evals + 2 * 40000 + 2)
+#define NV_BUDGET (1 <= nv_ver_counter && nv_ver_counter < 2000000000 && 2 * nv_ver_counter < (uint64_t)nv_max_evals + 2 * NV_LS_MAX_EVALS + 2)
 #define NV_SOLVER_LOOP(extra) \
 __CPROVER_assigns(cstate, pstate, lsearch, nv_ver_counter, nv_ls_ghost extra) \
 __CPROVER_loop_invariant(NV_GOOD(cstate) && NV_GOOD(pstate) && NV_BUDGET) \
-__CPROVER_decreases((uint64_t)nv_max_evals + 100000 - 2 * nv_ver_counter)
+__CPROVER_decreases((uint64_t)nv_max_evals + (2 * NV_LS_MAX_EVALS + 50000) - 2 * nv_ver_counter)
 #define NV_COMMA ,
 #define NV_CONTRACT_cgd_do_minimize NV_MINIMIZE_REQUIRES NV_MINIMIZE_ASSIGNS NV_MINIMIZE_ENSURES
 #define NV_LOOP_cgd_do_minimize_1 NV_SOLVER_LOOP()
